@@ -38,7 +38,7 @@ ASSUMPTIONS = [
     "verovio is not installed: the lxml branch of the MEI reader is the one that runs",
 ]
 COMPONENTS = {"real": ["partitura.io.importkern", "partitura.io.exportkern", "partitura.io.importmei", "partitura.io.exportmei", "partitura.io.load_score", "numpy loadtxt/genfromtxt/savetxt", "lxml"], "stub": ["raw file layer (SimFS)", "HTTP client (fake urlopen)", "independent kern and MEI encoders (model/ref_kern.py, model/ref_mei.py)"]}
-PROBES = ("kern_spine_split_fallback_reader", "kern_same_part", "mei_dur_ppq", "kern_multi_spine", "kern_ties", "kern_tuplets", "kern_grace", "mei_attr_defs", "mei_child_defs", "mei_no_ppq", "mei_layers", "mei_tuplets", "upper_case_extension", "url_route", "url_short_reads", "read_fault", "write_fault", "export_roundtrip_checked")
+PROBES = ("kern_spine_split_fallback_reader", "kern_same_part", "mei_dur_ppq", "kern_multi_spine", "kern_ties", "kern_tuplets", "kern_grace", "mei_attr_defs", "mei_child_defs", "mei_no_ppq", "mei_layers", "mei_tuplets", "mei_meter_change", "upper_case_extension", "url_route", "url_short_reads", "read_fault", "write_fault", "export_roundtrip_checked")
 
 
 # ----------------------------------------------------------------------------
@@ -54,7 +54,7 @@ def generate(seed, tier, cfg):
         # direction 2: half of the runs use parts both writers handle today (one voice on one staff, plain and
         # dotted values, rests), the other half the full subset (known findings KF-C19-*-export-rich)
         rich = k.random() < 0.5
-    asc = gen.gen_score(st.workload, profile=("kernmei" if fmt == "kern" else "mei") if rich else "simple")
+    asc = gen.gen_score(st.workload, profile=("kernmei" if fmt == "kern" else ("mei2" if cfg == "mei-in" else "mei")) if rich else "simple")
     if cfg.endswith("-rt"):
         asc["parts"] = asc["parts"][:1]
     ext = {"kern": k.choice((".krn", ".kern", ".krn", ".KRN")), "mei": k.choice((".mei", ".mei", ".MEI"))}[fmt]
@@ -315,6 +315,11 @@ def run_in(res, fs, asc, kn, fmt, path, faults, shape):
                 if [t[1:] for t in ps["timesigs"]][:1] != [stf["meter"]]:
                     res.violation("N2-structure", "load", "MEI staff %d: meter %s, declared %s" % (stf["n"], ps["timesigs"][:1], stf["meter"]), site="meter")
                     return
+                if len(stf["timesigs"]) > 1:
+                    res.probe("mei_meter_change")
+                    if ps["timesigs"] != sorted(stf["timesigs"]):
+                        res.violation("N2-structure", "load", "MEI staff %d: time signatures %s, declared %s" % (stf["n"], [(str(a), b, c) for a, b, c in ps["timesigs"]], [(str(a), b, c) for a, b, c in sorted(stf["timesigs"])]), site="meter-change")
+                        return
                 if [k[1] for k in ps["keys"]][:1] != [stf["key"]]:
                     res.violation("N2-structure", "load", "MEI staff %d: key signature %s, declared %s" % (stf["n"], ps["keys"][:1], stf["key"]), site="key")
                     return
